@@ -14,6 +14,7 @@ mod p09;
 mod strspec;
 mod p03;
 mod p10;
+mod p11;
 mod p23;
 mod p25;
 mod p29;
@@ -54,6 +55,7 @@ fn main() {
         "C07" => p07::run(&mut ctx),
         "C09" => p09::run(&mut ctx),
         "C10" => p10::run(&mut ctx),
+        "C11" => p11::run(&mut ctx),
         "C23" => p23::run(&mut ctx),
         "C25" => p25::run(&mut ctx),
         "C29" => p29::run(&mut ctx),
